@@ -163,18 +163,17 @@ theorem C06_from_peps_default_shape (es d : List Rat) (xs : List Psm)
 /-- **from_peps, default pipeline, alignment**: for every arrangement `ys` of the data set and
 every admissible `argsort`, the `i`-th q-value is `interp (pepKnots sx)` at the `i`-th PSM's own
 score, `sx` being any descending arrangement of the data set with the `hist_nnls` PEPs of the
-kernel outputs `(es, d)` — one function of the score for all input orders.  Hypotheses: the
-PEPs exist (`pep_est[0] ≠ 0`) and there is a target. -/
+kernel outputs `(es, d)` — one function of the score for all input orders.  Hypothesis: there
+is a target (since the repair 835a908 the `hist_nnls` PEPs always exist; the former hypothesis
+`pep_est[0] ≠ 0` is gone). -/
 theorem C06_from_peps_default_perm_equivariant (es d : List Rat) (xs ys : List Psm)
     (hperm : ys.Perm xs) (ind : List Nat) (hind : ValidArgsort ys ind)
-    (hdef : (revCumsum d).headD 0 ≠ 0) (htgt : ∃ x ∈ xs, x.2 = true)
+    (htgt : ∃ x ∈ xs, x.2 = true)
     (sx : List (Psm × Rat)) (hsx : sx.Perm (xs.map (fun x => (x, histPepFun es d x.1))))
     (h1 : sx.Pairwise (fun a b => b.1.1 ≤ a.1.1)) :
     fromPepsHistOf es d ys ind = some (ys.map (fun y => interp (pepKnots sx) y.1)) := by
   unfold fromPepsHistOf
   have hh : histNnlsOf es d (ys.map (·.1)) = some ((ys.map (·.1)).map (histPepFun es d)) := by
-    unfold histNnlsOf
-    rw [if_neg hdef]
     rfl
   rw [hh]
   simp only [Option.bind_some]
